@@ -32,6 +32,8 @@ type Frame struct {
 	result    Value
 	cur       ssa.Instruction
 	visits    map[*ssa.BasicBlock]int
+	skipPhis  bool
+	retByConv bool
 }
 
 func (fr *Frame) where() string {
@@ -204,7 +206,15 @@ func (m *Machine) runFrame(fr *Frame) {
 		blk := fr.block
 		// phis
 		i := 0
-		if len(blk.Instrs) > 0 {
+		if fr.skipPhis {
+			fr.skipPhis = false
+			for i < len(blk.Instrs) {
+				if _, ok := blk.Instrs[i].(*ssa.Phi); !ok {
+					break
+				}
+				i++
+			}
+		} else if len(blk.Instrs) > 0 {
 			if _, ok := blk.Instrs[0].(*ssa.Phi); ok {
 				pi := -1
 				for k, p := range blk.Preds {
@@ -364,6 +374,14 @@ func (m *Machine) visit(fr *Frame, instr ssa.Instruction) cont {
 		m.store(fr.get(instr.Addr).(*Ptr), fr.get(instr.Val))
 	case *ssa.If:
 		c := fr.get(instr.Cond).(*Term)
+		if _, known := m.litKnown(c); !known && m.concrete == nil && !m.spec {
+			if m.tryIfConv(fr, instr, c) {
+				if fr.retByConv {
+					return kReturn
+				}
+				return kJump
+			}
+		}
 		succ := 1
 		if m.branch(c) {
 			succ = 0
